@@ -260,30 +260,32 @@ func (s *Solver) Solve(u *Unit, o *Obligation) *Result {
 				s.mu.Unlock()
 				pathr := filepath.Join(s.dir, fmt.Sprintf("q%05d.smt2", idr))
 				os.WriteFile(pathr, []byte("; "+o.Name+" (relevant facts, depth "+fmt.Sprint(depth)+")\n"+sc), 0o644)
-				s.sem <- struct{}{}
 				lim := 8
 				if depth == 2 {
 					lim = 6
 				} else if depth > 2 {
 					lim = 15
 				}
-				ctxr, cancelr := context.WithTimeout(context.Background(), time.Duration(lim)*time.Second)
-				ar, outr, msr := runOne(ctxr, SolverSpec{"z3-5.1.0", []string{"z3-new", fmt.Sprintf("-T:%d", lim), "-smt2"}}, pathr)
-				cancelr()
-				<-s.sem
+				// z3 and cvc5 side by side: each decides goals the other does not
+				all := solverSpecs(lim)
+				crr := s.race(pathr, sc, []SolverSpec{all[0], all[1]}, caseRes{solverMs: map[string]int64{}}, lim)
+				ar, outr, msr := crr.answer, crr.out, crr.ms
+				stage0Solver := crr.solver
 				if os.Getenv("GPV_KEEP") == "" {
 					os.Remove(pathr)
 				}
 				r.Ms += msr
-				r.SolverMs["z3-5.1.0"] += msr
+				for k, v := range crr.solverMs {
+					r.SolverMs[k] += v
+				}
 				if ar == "unsat" {
 					r.VCBytes = len(sc)
-					r.Status, r.Answer, r.Solver, r.Cases = "discharged", "unsat", "z3-5.1.0", 1
+					r.Status, r.Answer, r.Solver, r.Cases = "discharged", "unsat", stage0Solver, 1
 					return r
 				}
 				if ar == "sat" && complete {
 					r.VCBytes = len(sc)
-					r.Status, r.Answer, r.Solver, r.Cases, r.Output = "failed", "sat", "z3-5.1.0", 1, outr
+					r.Status, r.Answer, r.Solver, r.Cases, r.Output = "failed", "sat", stage0Solver, 1, outr
 					r.Model = map[string]string{}
 					for _, m := range valueRe.FindAllStringSubmatch(outr, -1) {
 						r.Model[strings.Trim(m[1], "|")] = m[2]
